@@ -212,6 +212,9 @@ impl<'m, const N: usize> Perform for Checker<'m, N> {
 
 /// Feed one byte to the real parser and to the model; true iff the callbacks agree.
 pub fn lockstep<const N: usize>(parser: &mut Parser, model: &mut Vt<N>, b: u8) -> bool {
+    // C20: the domain on which all feature configurations must agree
+    #[cfg(feature = "seven_bit")]
+    kani::assume(b < 0x80);
     let evs = model.step(b);
     let mut chk = Checker::new(&*model, evs);
     parser.advance(&mut chk, b);
